@@ -20,5 +20,6 @@ CONSTANTS
   FixD6 = TRUE
   FixD7 = TRUE
   FixD16 = TRUE
+  FixD10a = TRUE
 VIEW view
 INVARIANTS TypeOK AcctInv NotifInv NotifComplete NoBadC06
